@@ -58,7 +58,7 @@ def search(ctx, deep):
     n_theta = 6 * (5 if deep else 1)
     checked = found = 0
     for fam in B.FAMS:
-        for th in B.theta_grid(fam) + [B.theta_random(fam, rng) for _ in range(n_theta)]:
+        for th in B.theta_all(fam) + [B.theta_random(fam, rng) for _ in range(n_theta)]:
             c = B.make(fam, th)
             tag = ':theta=1-shortcut' if (fam == 'gumbel' and th == 1.0) else ''
 
